@@ -57,9 +57,14 @@ def run(ctx):
     rng = ctx.rng
     nt = 600 if ctx.quick() else 20000
     tasks = [taskharness.gen_task(rng, allow_other=False) for _ in range(nt)]
-    for t in tasks:         # C12 is about fault-free tasks: no DB faults here (C10 covers them)
-        t["db"] = []
-        t["segs"] = [(regs, "d" if e in ("e", "x") else e) for regs, e in t["segs"]]
+    for k_, t in enumerate(tasks):
+        # mostly fault-free tasks (C10 covers the faults); one in four keeps its database faults, because "clean-ups exactly
+        # once, after the final step" and "an exclusive task keeps its FIFO until it has finished" also hold for a task that dies
+        if k_ % 4:
+            t["db"] = []
+            t["segs"] = [(regs, "d" if e in ("e", "x") else e) for regs, e in t["segs"]]
+        else:
+            t["segs"] = [(regs, "d" if e == "x" else e) for regs, e in t["segs"]]
     outs = common.Driver().batch([taskharness.model_line(t) for t in tasks])
     for t, o in zip(tasks, outs):
         ev, left = taskharness.run_real(t)
@@ -80,6 +85,11 @@ def run(ctx):
                 if int(k) != t["key"] or int(x) != int(t["excl"]):
                     ctx.violation("task:requeue-flags", f"yielding task (key {t['key']}, exclusive={t['excl']}) re-queued as key {k} exclusive={x}",
                                   {"kind": "task", "task": t, "events": ev})
+        last_done = max([i for i, e in enumerate(ev) if e.startswith("D:")], default=-1)
+        late = [e for e in ev[last_done + 1:] if e.startswith("c")] if last_done >= 0 else []
+        if late:
+            ctx.violation("task:slot-before-cleanup", f"the task's queue slot (its FIFO's lock, if exclusive={t['excl']}) was given back before "
+                          f"its clean-up actions {late} had run", {"kind": "task", "task": t, "events": ev})
         last_step = max([i for i, e in enumerate(ev) if e.startswith("P:")], default=-1)
         for i in reg_ids:
             c = ev.count(f"c{i}")
@@ -87,7 +97,8 @@ def run(ctx):
                 ctx.violation("task:cleanup-count", f"clean-up {i} ran {c} times", {"kind": "task", "task": t, "events": ev})
             elif ev.index(f"c{i}") < last_step:
                 ctx.violation("task:cleanup-early", f"clean-up {i} ran before the task's final step", {"kind": "task", "task": t, "events": ev})
-        if left["qsize"] or left["inprogress"] or left["deferred"] or left["locked"]:
+        requeued = any(e.startswith("Q:") for e in ev)      # a task created with requeue=True that died of a DB fault is queued again
+        if (left["qsize"] and not (requeued and left["qsize"] == 1)) or left["inprogress"] or left["deferred"] or left["locked"]:
             ctx.violation("task:leftover", f"after the task finished the queue still holds {left}", {"kind": "task", "task": t, "events": ev})
     ctx.coverage["rule"] = ("queue: as C11 but half of the items exclusive and 40% deferred (waits 1,2,5,11 against get time-outs 1,3,12), judged "
                             "by oracles for exclusivity, fairness (fewest running among eligible FIFOs, from the real queue's fields) and "
